@@ -306,6 +306,33 @@ func (h *HolderBothTags) Check(nameOf func(any) string) []string {
 	return out
 }
 
+// A by-value field whose type has Prefix() on the POINTER receiver only is not a ConfigurationProperties
+// value: untagged (or foreign-tagged), it is not the container's to write.
+type PtrPrefixed struct {
+	Keep string `yaml:"s"`
+	N    int    `yaml:"n"`
+}
+
+func (*PtrPrefixed) Prefix() string { return "c11.sub" }
+
+type HolderPtrPrefixed struct {
+	Defaults PtrPrefixed
+	Shadow   PtrPrefixed `json:"shadow"`
+	Own      string      `value:"own"`
+}
+
+func (h *HolderPtrPrefixed) Check(nameOf func(any) string) []string {
+	var out []string
+	want := PtrPrefixed{Keep: "SENTINEL", N: 4242}
+	if h.Defaults != want || h.Shadow != want {
+		out = append(out, fmt.Sprintf("HolderPtrPrefixed: untagged / foreign-tagged by-value fields were written: Defaults=%+v Shadow=%+v", h.Defaults, h.Shadow))
+	}
+	if h.Own != "own" {
+		out = append(out, "HolderPtrPrefixed.Own not bound")
+	}
+	return out
+}
+
 // NewEmbedFixtures returns fresh fixture holders with sentinels in the fields the container must not touch.
 func NewEmbedFixtures() []EmbedFixture {
 	a := &HolderFlat{u: 777, N: "SENTINEL"}
@@ -318,6 +345,7 @@ func NewEmbedFixtures() []EmbedFixture {
 	return []EmbedFixture{a, b, c, d, &HolderSiblings{}, &HolderPtrEmbedded{SharedState: &SharedState{V: "SENTINEL"}},
 		&HolderLogger{},
 		&HolderBothTags{},
+		&HolderPtrPrefixed{Defaults: PtrPrefixed{Keep: "SENTINEL", N: 4242}, Shadow: PtrPrefixed{Keep: "SENTINEL", N: 4242}},
 		&HolderTaggedEmbeds{Stamped: Stamped{Inner: "SENTINEL"}, OptionsMix: OptionsMix{V: "SENTINEL"}},
 		&HolderPrefixedEmbed{PrefixedMix: PrefixedMix{Keep: "SENTINEL", Num: 4242, hidden: 777}}}
 }
